@@ -490,7 +490,9 @@ func allPositions() []*position {
 			Want: func(eff string) []lit {
 				parts := []string{"process_cpu", "cpu", "nanoseconds", "cpu", "nanoseconds"}
 				parts[i] = eff
-				return []lit{{Val: eff}, {Val: parts[0] + ":" + parts[3] + ":" + parts[4]}, {Val: parts[1] + ":" + parts[2]}}
+				// (since fix e8a627d the planner matches the whole id as ONE __profile_type__ literal; the component-wise literals of
+				// the older rendering stay accepted)
+				return []lit{{Val: eff}, {Val: parts[0] + ":" + parts[3] + ":" + parts[4]}, {Val: parts[1] + ":" + parts[2]}, {Val: strings.Join(parts, ":")}}
 			},
 			Build: func(s string) (*request, string, bool) {
 				if !utf8.ValidString(s) || strings.Contains(s, ":") {
